@@ -785,63 +785,96 @@ Proof.
   - left. now apply nth_set_nth_neq.
 Qed.
 
-Definition dd_body : lstmt := LIf (KMarkNe RRtb) (LSeq (LPushLocal RRtb) (LSetMark RRtb)).
-
-Lemma dd_inner x : forall l tb dir der marks w cm M loc seen,
-  (forall y, In y l -> y < length marks) ->
-  (forall k, k < length marks -> (nth k marks 0 = M <-> In k seen)) ->
-  ofor (fun i s' => mk_exec dd_body (eset RRtb (Some i) x) s') l (mk_mk tb dir der marks w cm M loc)
-  = Some (mk_mk tb dir der (mark_all M l marks) w cm M (loc ++ dedupn l seen)).
-Proof.
-  induction l as [|y l IH]; intros tb dir der marks w cm M loc seen Hlt Hseen; cbn [ofor mark_all fold_left dedupn].
-  - now rewrite app_nil_r.
-  - fold (mark_all M l (set_nth y marks M)).
-    assert (Hy : y < length marks) by (apply Hlt; now left).
-    assert (Estep : mk_exec dd_body (eset RRtb (Some y) x) (mk_mk tb dir der marks w cm M loc)
-                    = if Nat.eqb (nth y marks 0) M then Some (mk_mk tb dir der marks w cm M loc)
-                      else Some (mk_mk tb dir der (set_nth y marks M) w cm M (loc ++ [y]))).
-    { unfold dd_body. cbn [mk_exec mk_cond eget eset e_rtb m_marks m_mark].
-      destruct (Nat.eqb (nth y marks 0) M); cbn [negb]; [reflexivity|].
-      cbn [mk_exec eget eset e_rtb m_marks m_mark m_tb m_dir m_der m_weight m_cmark m_local].
-      apply Nat.ltb_lt in Hy. now rewrite Hy. }
-    rewrite Estep.
-    destruct (Nat.eqb_spec (nth y marks 0) M) as [E|E].
-    + assert (Hm : memn y seen = true) by (apply memn_In; now apply (Hseen y Hy)). rewrite Hm.
-      rewrite (set_nth_same 0 y marks M E).
-      apply IH; [intros z Hz; apply Hlt; now right|exact Hseen].
-    + assert (Hm : memn y seen = false) by (apply memn_false; intro Hin; apply E; now apply (Hseen y Hy)). rewrite Hm.
-      rewrite (IH tb dir der (set_nth y marks M) w cm M (loc ++ [y]) (y :: seen)).
-      * now rewrite <- app_assoc.
-      * intros z Hz. rewrite length_set_nth. apply Hlt. now right.
-      * intros k Hk. rewrite length_set_nth in Hk. cbn [In]. destruct (Nat.eq_dec y k) as [->|Hne].
-        -- rewrite nth_set_nth_eq by exact Hk. split; [now left|reflexivity].
-        -- rewrite nth_set_nth_neq by exact Hne. rewrite (Hseen k Hk). split; [now right|intros [H|H]; [contradiction|exact H]].
-Qed.
-
 Definition dd (l : list nat) : list nat := dedupn l [].
-Definition dd_class_body : lstmt :=
-  LSeq LClearLocal (LSeq LNewMark (LSeq (LFor RRtb (LTb RRtc) dd_body) (LSeq LSetWeightLocal LSwapTbLocal))).
-
 Definition marks_ok (n : nat) (marks : list nat) (cm : nat) : Prop := length marks = n /\ forall k, nth k marks 0 <= cm.
 
-Lemma dd_class x c tb dir der marks w cm M loc n : marks_ok n marks cm -> (forall y, In y (nth c tb []) -> y < n) ->
-  exists marks' loc',
-    mk_exec dd_class_body (eset RRtc (Some c) x) (mk_mk tb dir der marks w cm M loc)
-    = Some (mk_mk (set_nth c tb (dd (nth c tb []))) dir der marks' (set_nth c w (length (dd (nth c tb [])))) (S cm) (S cm) loc')
-    /\ marks_ok n marks' (S cm).
+(* what the test-and-push of the loop, and the statements after the loop, have to do - whatever their spelling *)
+Definition dd_body_spec (body : lstmt) : Prop := forall x y tb dir der marks w cm M loc, y < length marks ->
+  mk_exec body (eset RRtb (Some y) x) (mk_mk tb dir der marks w cm M loc)
+  = if Nat.eqb (nth y marks 0) M then Some (mk_mk tb dir der marks w cm M loc)
+    else Some (mk_mk tb dir der (set_nth y marks M) w cm M (loc ++ [y])).
+Definition dd_tail_spec (tail : lstmt) : Prop := forall x c tb dir der marks w cm M l, e_rtc x = Some c -> c < length tb ->
+  exists loc', mk_exec tail x (mk_mk tb dir der marks w cm M l)
+               = Some (mk_mk (set_nth c tb l) dir der marks (set_nth c w (length l)) cm M loc').
+
+Section DedupGeneric.
+  Variables body tail : lstmt.
+  Hypothesis Hbody : dd_body_spec body.
+  Hypothesis Htail : dd_tail_spec tail.
+
+  Lemma dd_inner x : forall l tb dir der marks w cm M loc seen,
+    (forall y, In y l -> y < length marks) ->
+    (forall k, k < length marks -> (nth k marks 0 = M <-> In k seen)) ->
+    ofor (fun i s' => mk_exec body (eset RRtb (Some i) x) s') l (mk_mk tb dir der marks w cm M loc)
+    = Some (mk_mk tb dir der (mark_all M l marks) w cm M (loc ++ dedupn l seen)).
+  Proof.
+    induction l as [|y l IH]; intros tb dir der marks w cm M loc seen Hlt Hseen; cbn [ofor mark_all fold_left dedupn].
+    - now rewrite app_nil_r.
+    - fold (mark_all M l (set_nth y marks M)).
+      assert (Hy : y < length marks) by (apply Hlt; now left).
+      rewrite (Hbody x y tb dir der marks w cm M loc Hy).
+      destruct (Nat.eqb_spec (nth y marks 0) M) as [E|E].
+      + assert (Hm : memn y seen = true) by (apply memn_In; now apply (Hseen y Hy)). rewrite Hm.
+        rewrite (set_nth_same 0 y marks M E).
+        apply IH; [intros z Hz; apply Hlt; now right|exact Hseen].
+      + assert (Hm : memn y seen = false) by (apply memn_false; intro Hin; apply E; now apply (Hseen y Hy)). rewrite Hm.
+        rewrite (IH tb dir der (set_nth y marks M) w cm M (loc ++ [y]) (y :: seen)).
+        * now rewrite <- app_assoc.
+        * intros z Hz. rewrite length_set_nth. apply Hlt. now right.
+        * intros k Hk. rewrite length_set_nth in Hk. cbn [In]. destruct (Nat.eq_dec y k) as [->|Hne].
+          -- rewrite nth_set_nth_eq by exact Hk. split; [now left|reflexivity].
+          -- rewrite nth_set_nth_neq by exact Hne. rewrite (Hseen k Hk). split; [now right|intros [H|H]; [contradiction|exact H]].
+  Qed.
+
+  Definition dd_class_body : lstmt := LSeq LClearLocal (LSeq LNewMark (LSeq (LFor RRtb (LTb RRtc) body) tail)).
+
+  Lemma dd_class x c tb dir der marks w cm M loc n : marks_ok n marks cm -> c < length tb -> (forall y, In y (nth c tb []) -> y < n) ->
+    exists marks' loc',
+      mk_exec dd_class_body (eset RRtc (Some c) x) (mk_mk tb dir der marks w cm M loc)
+      = Some (mk_mk (set_nth c tb (dd (nth c tb []))) dir der marks' (set_nth c w (length (dd (nth c tb [])))) (S cm) (S cm) loc')
+      /\ marks_ok n marks' (S cm).
+  Proof.
+    intros [Hlen Hle] Hct Hwf. unfold dd_class_body.
+    assert (Hc : e_rtc (eset RRtc (Some c) x) = Some c) by (destruct x; reflexivity).
+    remember (LFor RRtb (LTb RRtc) body) as B eqn:HB. remember tail as T eqn:HT.
+    cbn [mk_exec m_tb m_dir m_der m_marks m_weight m_cmark m_mark m_local]. subst B.
+    rewrite (mk_for_tb RRtb RRtc body _ _ c) by exact Hc. cbn [m_tb].
+    rewrite (dd_inner _ (nth c tb []) tb dir der marks w (S cm) (S cm) [] []).
+    - cbn [app]. subst T.
+      destruct (Htail (eset RRtc (Some c) x) c tb dir der (mark_all (S cm) (nth c tb []) marks) w (S cm) (S cm) (dedupn (nth c tb []) []) Hc Hct)
+        as [loc' E]. rewrite E.
+      eexists. eexists. split; [reflexivity|]. split; [now rewrite length_mark_all|].
+      intro k. destruct (nth_mark_all (S cm) (nth c tb []) marks k) as [E'|E']; rewrite E'; [specialize (Hle k); lia|lia].
+    - intros y Hy. rewrite Hlen. now apply Hwf.
+    - intros k _. cbn [In]. specialize (Hle k). split; [lia|tauto].
+  Qed.
+End DedupGeneric.
+
+(* the spellings met so far *)
+Lemma dd_body_push_then_mark : dd_body_spec (LIf (KMarkNe RRtb) (LSeq (LPushLocal RRtb) (LSetMark RRtb))).
 Proof.
-  intros [Hlen Hle] Hwf. unfold dd_class_body.
-  assert (Hc : e_rtc (eset RRtc (Some c) x) = Some c) by (destruct x; reflexivity).
-  remember (LFor RRtb (LTb RRtc) dd_body) as B eqn:HB.
-  cbn [mk_exec m_tb m_dir m_der m_marks m_weight m_cmark m_mark m_local]. subst B.
-  rewrite (mk_for_tb RRtb RRtc dd_body _ _ c) by exact Hc. cbn [m_tb].
-  rewrite (dd_inner _ (nth c tb []) tb dir der marks w (S cm) (S cm) [] []).
-  - cbn [app mk_exec eget m_tb m_dir m_der m_marks m_weight m_cmark m_mark m_local]. rewrite ?Hc.
-    cbn [mk_exec eget m_tb m_dir m_der m_marks m_weight m_cmark m_mark m_local]. rewrite ?Hc.
-    eexists. eexists. split; [reflexivity|]. split; [now rewrite length_mark_all|].
-    intro k. destruct (nth_mark_all (S cm) (nth c tb []) marks k) as [E|E]; rewrite E; [specialize (Hle k); lia|lia].
-  - intros y Hy. rewrite Hlen. now apply Hwf.
-  - intros k _. cbn [In]. specialize (Hle k). split; [lia|tauto].
+  intros x y tb dir der marks w cm M loc Hy. cbn [mk_exec mk_cond eget eset e_rtb m_marks m_mark].
+  destruct (Nat.eqb (nth y marks 0) M); cbn [negb]; [reflexivity|].
+  cbn [mk_exec eget eset e_rtb m_marks m_mark m_tb m_dir m_der m_weight m_cmark m_local].
+  apply Nat.ltb_lt in Hy. now rewrite Hy.
+Qed.
+Lemma dd_body_mark_then_push : dd_body_spec (LIf (KMarkNe RRtb) (LSeq (LSetMark RRtb) (LPushLocal RRtb))).
+Proof.
+  intros x y tb dir der marks w cm M loc Hy. cbn [mk_exec mk_cond eget eset e_rtb m_marks m_mark].
+  destruct (Nat.eqb (nth y marks 0) M); cbn [negb]; [reflexivity|].
+  cbn [mk_exec eget eset e_rtb m_marks m_mark m_tb m_dir m_der m_weight m_cmark m_local].
+  apply Nat.ltb_lt in Hy. rewrite Hy. cbn [mk_exec eget eset e_rtb m_marks m_mark m_tb m_dir m_der m_weight m_cmark m_local]. reflexivity.
+Qed.
+Lemma dd_tail_weight_then_swap : dd_tail_spec (LSeq LSetWeightLocal LSwapTbLocal).
+Proof.
+  intros x c tb dir der marks w cm M l Hc Hct. cbn [mk_exec eget]. rewrite Hc.
+  cbn [mk_exec eget m_tb m_dir m_der m_marks m_weight m_cmark m_mark m_local]. rewrite ?Hc. eexists. reflexivity.
+Qed.
+Lemma dd_tail_swap_then_weight : dd_tail_spec (LSeq LSwapTbLocal LSetWeightTb).
+Proof.
+  intros x c tb dir der marks w cm M l Hc Hct. cbn [mk_exec eget]. rewrite Hc.
+  cbn [mk_exec eget m_tb m_dir m_der m_marks m_weight m_cmark m_mark m_local]. rewrite ?Hc.
+  cbn [m_tb m_dir m_der m_marks m_weight m_cmark m_mark m_local]. rewrite nth_set_nth_eq by exact Hct. eexists. reflexivity.
 Qed.
 
 Definition dd_step (p : list (list nat) * list nat) (c : nat) : list (list nat) * list nat :=
@@ -861,18 +894,20 @@ Proof.
   - rewrite nth_set_nth_neq in Hin by exact Hne. now apply (H c').
 Qed.
 
-Lemma dd_outer x n : forall cs tb dir der marks w cm M loc, marks_ok n marks cm ->
+Lemma dd_outer body tail x n : dd_body_spec body -> dd_tail_spec tail ->
+  forall cs tb dir der marks w cm M loc, marks_ok n marks cm -> (forall c, In c cs -> c < length tb) ->
   (forall c y, In y (nth c tb []) -> y < n) ->
   exists marks' cm' M' loc',
-    ofor (fun i s' => mk_exec dd_class_body (eset RRtc (Some i) x) s') cs (mk_mk tb dir der marks w cm M loc)
+    ofor (fun i s' => mk_exec (dd_class_body body tail) (eset RRtc (Some i) x) s') cs (mk_mk tb dir der marks w cm M loc)
     = Some (mk_mk (fst (fold_left dd_step cs (tb, w))) dir der marks' (snd (fold_left dd_step cs (tb, w))) cm' M' loc')
     /\ marks_ok n marks' cm'.
 Proof.
-  induction cs as [|c cs IH]; intros tb dir der marks w cm M loc Hok Hwf; cbn [ofor fold_left].
+  intros Hb Ht. induction cs as [|c cs IH]; intros tb dir der marks w cm M loc Hok Hcs Hwf; cbn [ofor fold_left].
   - exists marks, cm, M, loc. split; [reflexivity|exact Hok].
-  - destruct (dd_class x c tb dir der marks w cm M loc n Hok (Hwf c)) as [marks1 [loc1 [E Hok1]]]. rewrite E.
+  - destruct (dd_class body tail Hb Ht x c tb dir der marks w cm M loc n Hok (Hcs c (or_introl eq_refl)) (Hwf c)) as [marks1 [loc1 [E Hok1]]]. rewrite E.
     destruct (IH (set_nth c tb (dd (nth c tb []))) dir der marks1 (set_nth c w (length (dd (nth c tb [])))) (S cm) (S cm) loc1 Hok1)
       as [marks' [cm' [M' [loc' [E' Hok']]]]].
+    + intros c' H. rewrite length_set_nth. apply Hcs. now right.
     + apply (dd_step_wf n (tb, w) c). exact Hwf.
     + exists marks', cm', M', loc'. split; [exact E'|exact Hok'].
 Qed.
@@ -899,6 +934,40 @@ Proof.
     now rewrite <- !app_assoc.
 Qed.
 
+Theorem dedup_loop_generic body tail tb dir der marks w cm M loc n : dd_body_spec body -> dd_tail_spec tail ->
+  length tb = n -> length w = n -> marks_ok n marks cm -> (forall c y, In y (nth c tb []) -> y < n) ->
+  exists marks' cm' M' loc',
+    mk_exec (LForClasses (dd_class_body body tail)) env0 (mk_mk tb dir der marks w cm M loc)
+    = Some (mk_mk (map dd tb) dir der marks' (map (fun l => length (dd l)) tb) cm' M' loc')
+    /\ marks_ok n marks' cm'.
+Proof.
+  intros Hb Ht Htb Hw Hok Hwf. rewrite mk_for_classes. cbn [m_tb].
+  destruct (dd_outer body tail env0 n Hb Ht (seq 0 (length tb)) tb dir der marks w cm M loc Hok) as [marks' [cm' [M' [loc' [E Hok']]]]].
+  - intros c Hc. apply in_seq in Hc. lia.
+  - exact Hwf.
+  - exists marks', cm', M', loc'. split; [|exact Hok']. rewrite E.
+    pose proof (dd_fold tb [] w [] ltac:(lia) eq_refl) as F. cbn [app length] in F. rewrite F. reflexivity.
+Qed.
+
+(* with `std::size_t mark = ++class_mark;` in front of the loop, or without *)
+Theorem dedup_generic (pre : bool) body tail tb dir der marks w cm M loc n : dd_body_spec body -> dd_tail_spec tail ->
+  length tb = n -> length w = n -> marks_ok n marks cm -> (forall c y, In y (nth c tb []) -> y < n) ->
+  exists marks' cm' M' loc',
+    mk_exec (LSeq (if pre then LNewMark else LSkip) (LForClasses (dd_class_body body tail))) env0 (mk_mk tb dir der marks w cm M loc)
+    = Some (mk_mk (map dd tb) dir der marks' (map (fun l => length (dd l)) tb) cm' M' loc')
+    /\ marks_ok n marks' cm'.
+Proof.
+  intros Hb Ht Htb Hw [Hlen Hle] Hwf. rewrite mk_seq. destruct pre; cbn [mk_exec m_tb m_dir m_der m_marks m_weight m_cmark m_mark m_local].
+  - apply (dedup_loop_generic body tail tb dir der marks w (S cm) (S cm) loc n Hb Ht Htb Hw); [|exact Hwf].
+    split; [exact Hlen|]. intro k. specialize (Hle k). lia.
+  - apply (dedup_loop_generic body tail tb dir der marks w cm M loc n Hb Ht Htb Hw); [|exact Hwf]. now split.
+Qed.
+
+(* the translated loop is one of the spellings *)
+Ltac dedup_spelling pre body hb tail ht :=
+  change gen_dedup with (LSeq (if pre then LNewMark else LSkip) (LForClasses (dd_class_body body tail)));
+  apply (dedup_generic pre body tail); [exact hb|exact ht].
+
 Theorem src_dedup tb dir der marks w cm M loc n :
   length tb = n -> length w = n -> marks_ok n marks cm -> (forall c y, In y (nth c tb []) -> y < n) ->
   exists marks' cm' M' loc',
@@ -906,15 +975,19 @@ Theorem src_dedup tb dir der marks w cm M loc n :
     = Some (mk_mk (map dd tb) dir der marks' (map (fun l => length (dd l)) tb) cm' M' loc')
     /\ marks_ok n marks' cm'.
 Proof.
-  intros Htb Hw [Hlen Hle] Hwf.
-  change gen_dedup with (LSeq LNewMark (LForClasses dd_class_body)).
-  remember (LForClasses dd_class_body) as B eqn:HB.
-  cbn [mk_exec m_tb m_dir m_der m_marks m_weight m_cmark m_mark m_local]. subst B. rewrite mk_for_classes. cbn [m_tb].
-  destruct (dd_outer env0 n (seq 0 (length tb)) tb dir der marks w (S cm) (S cm) loc) as [marks' [cm' [M' [loc' [E Hok]]]]].
-  - split; [exact Hlen|]. intro k. specialize (Hle k). lia.
-  - exact Hwf.
-  - exists marks', cm', M', loc'. split; [|exact Hok]. rewrite E.
-    pose proof (dd_fold tb [] w [] ltac:(lia) eq_refl) as F. cbn [app length] in F. rewrite F. reflexivity.
+  pose (b1 := LIf (KMarkNe RRtb) (LSeq (LPushLocal RRtb) (LSetMark RRtb))).
+  pose (b2 := LIf (KMarkNe RRtb) (LSeq (LSetMark RRtb) (LPushLocal RRtb))).
+  pose (t1 := LSeq LSetWeightLocal LSwapTbLocal).
+  pose (t2 := LSeq LSwapTbLocal LSetWeightTb).
+  first
+    [ dedup_spelling true b1 dd_body_push_then_mark t1 dd_tail_weight_then_swap
+    | dedup_spelling true b2 dd_body_mark_then_push t1 dd_tail_weight_then_swap
+    | dedup_spelling true b1 dd_body_push_then_mark t2 dd_tail_swap_then_weight
+    | dedup_spelling true b2 dd_body_mark_then_push t2 dd_tail_swap_then_weight
+    | dedup_spelling false b1 dd_body_push_then_mark t1 dd_tail_weight_then_swap
+    | dedup_spelling false b2 dd_body_mark_then_push t1 dd_tail_weight_then_swap
+    | dedup_spelling false b1 dd_body_push_then_mark t2 dd_tail_swap_then_weight
+    | dedup_spelling false b2 dd_body_mark_then_push t2 dd_tail_swap_then_weight ].
 Qed.
 
 (* ------------------------------------------------------------------ direct *)
